@@ -451,7 +451,7 @@ def facts_ok(r):
 
 
 def run(r, n_override=None):
-    n = {"quick": 150, "thorough": 2500}[r.tier] if n_override is None else n_override
+    n = {"quick": 150, "thorough": 8000}[r.tier] if n_override is None else n_override
     r.rule = ("per function: shapes 1x1..7x7 (20% with a side < 3), 8 dtypes, values small ints with ties / dyadics / "
               "ramps / flat / 0..250, NaN cells for floats, cell size by res attr (tuple, list, ndarray, scalar, int) "
               "or coordinates (ascending, descending, renamed dims) with x != y in 65%, 10 azimuths x 9 altitudes; "
